@@ -716,131 +716,228 @@ func checkValidity(c *Ctx) {
 	}
 	c.Saw(fn)
 	f := w.Facts(fn)
-	// conversions uint64 -> int64 must take a clamped value
-	clamped := map[string]ssa.Value{}
+	const maxI64 = 1<<63 - 1
+	// clampOf: conversion cv (uint64 -> int64) takes min(raw, MaxInt64): a two-way join whose MaxInt64 edge is taken
+	// exactly under raw > MaxInt64. Returns the raw value.
+	clampOf := func(cv *ssa.Convert) (ssa.Value, bool) {
+		phi, ok := cv.X.(*ssa.Phi)
+		if !ok || len(phi.Edges) != 2 {
+			return nil, false
+		}
+		var raw ssa.Value
+		maxEdge := -1
+		for i, e := range phi.Edges {
+			if k, ok := uintConst(e); ok && k == maxI64 {
+				maxEdge = i
+			} else {
+				raw = e
+			}
+		}
+		if raw == nil || maxEdge < 0 {
+			return nil, false
+		}
+		gt := func(fs map[Lit]bool, want bool) bool {
+			for l := range fs {
+				bin, ok := l.V.(*ssa.BinOp)
+				if !ok {
+					continue
+				}
+				// raw > Max, Max < raw (or their negations raw <= Max, Max >= raw)
+				var x, y ssa.Value
+				pol := l.Pol
+				switch bin.Op {
+				case token.GTR:
+					x, y = bin.X, bin.Y
+				case token.LSS:
+					x, y = bin.Y, bin.X
+				case token.LEQ:
+					x, y, pol = bin.X, bin.Y, !pol
+				case token.GEQ:
+					x, y, pol = bin.Y, bin.X, !pol
+				default:
+					continue
+				}
+				if k, ok := uintConst(y); ok && k == maxI64 && strip(x) == strip(raw) && pol == want {
+					return true
+				}
+			}
+			return false
+		}
+		ef := w.factsOnEdge(phi.Block().Preds[maxEdge], phi.Block())
+		other := w.factsOnEdge(phi.Block().Preds[1-maxEdge], phi.Block())
+		return raw, gt(ef, true) && gt(other, false)
+	}
+	isU64toI64 := func(cv *ssa.Convert) bool {
+		ft, okf := cv.X.Type().Underlying().(*types.Basic)
+		tt, okt := cv.Type().Underlying().(*types.Basic)
+		return okf && okt && ft.Kind() == types.Uint64 && tt.Kind() == types.Int64
+	}
+	fieldOf := func(v ssa.Value) string {
+		ex := w.ExprIn(fn, v)
+		if ex == "p0.ValidBefore" || ex == "p0.ValidAfter" {
+			return strings.TrimPrefix(ex, "p0.")
+		}
+		return ""
+	}
+	// clamped: the int64 values of fn's frame that are min(cert.<field>, MaxInt64)
+	clamped := map[ssa.Value]string{}
 	nConv := 0
-	for _, b := range fn.Blocks {
-		for _, ins := range b.Instrs {
-			cv, ok := ins.(*ssa.Convert)
-			if !ok {
-				continue
-			}
-			ft, okf := cv.X.Type().Underlying().(*types.Basic)
-			tt, okt := cv.Type().Underlying().(*types.Basic)
-			if !okf || !okt || ft.Kind() != types.Uint64 || tt.Kind() != types.Int64 {
-				continue
-			}
-			nConv++
-			field := ""
-			good := false
-			if phi, ok := cv.X.(*ssa.Phi); ok && len(phi.Edges) == 2 {
-				var raw ssa.Value
-				var maxEdge = -1
-				for i, e := range phi.Edges {
-					if k, ok := uintConst(e); ok && k == 1<<63-1 {
-						maxEdge = i
-					} else {
-						raw = e
-					}
+	report := func(cv *ssa.Convert, field string, good bool) {
+		key := "ValidateSSHCertTime|" + field + " clamped before the signed comparison"
+		if field == "" {
+			key = "ValidateSSHCertTime|conversion " + w.Short(cv.X)
+		}
+		c.Check(good, "R5.validity", key, w.Pos(cv.Pos()), "x > MaxInt64 ? MaxInt64 : x", "a uint64 validity bound is converted to int64 without the clamp to MaxInt64: 'forever' (2^64-1) becomes -1 and the certificate always looks expired")
+	}
+	for _, g := range w.Tree(fn) {
+		for _, b := range g.Blocks {
+			for _, ins := range b.Instrs {
+				cv, ok := ins.(*ssa.Convert)
+				if !ok || !isU64toI64(cv) {
+					continue
 				}
-				if raw != nil && maxEdge >= 0 {
-					ex := w.Expr(raw)
-					if ex == "p0.ValidBefore" || ex == "p0.ValidAfter" {
-						field = strings.TrimPrefix(ex, "p0.")
-						// the MaxInt64 edge is taken exactly under raw > MaxInt64
-						ef := w.factsOnEdge(phi.Block().Preds[maxEdge], phi.Block())
-						other := w.factsOnEdge(phi.Block().Preds[1-maxEdge], phi.Block())
-						gt := func(fs map[Lit]bool, pol bool) bool {
-							for l := range fs {
-								bin, ok := l.V.(*ssa.BinOp)
-								if !ok || l.Pol != pol || bin.Op != token.GTR {
-									continue
-								}
-								if k, ok := uintConst(bin.Y); ok && k == 1<<63-1 && w.Expr(bin.X) == ex {
-									return true
-								}
-							}
-							return false
+				raw, good := clampOf(cv)
+				if g == fn {
+					nConv++
+					field := ""
+					if raw != nil {
+						field = fieldOf(raw)
+					}
+					good = good && field != ""
+					report(cv, field, good)
+					if good {
+						clamped[cv] = field
+					}
+					continue
+				}
+				// in a helper: one obligation per call, in the terms of the argument passed there
+				prm, isParam := raw.(*ssa.Parameter)
+				whole := isParam && g.Signature.Results().Len() == 1
+				if whole {
+					for _, r := range liveReturns(g) {
+						if strip(r.Results[0]) != ssa.Value(cv) {
+							whole = false
 						}
-						good = gt(ef, true) && gt(other, false)
 					}
 				}
-			}
-			key := "ValidateSSHCertTime|" + field + " clamped before the signed comparison"
-			if field == "" {
-				key = "ValidateSSHCertTime|conversion " + w.Short(cv.X)
-			}
-			c.Check(good, "R5.validity", key, w.Pos(cv.Pos()), "x > MaxInt64 ? MaxInt64 : x", "a uint64 validity bound is converted to int64 without the clamp to MaxInt64: 'forever' (2^64-1) becomes -1 and the certificate always looks expired")
-			if good {
-				clamped[field] = cv
+				sites := w.sitesIn(fn, g)
+				if len(sites) == 0 {
+					nConv++
+					report(cv, "", false)
+				}
+				for _, s := range sites {
+					nConv++
+					field := ""
+					call, isCall := s.(*ssa.Call)
+					if whole && isCall && s.Parent() == fn {
+						field = fieldOf(s.Common().Args[paramIndex(prm)])
+					}
+					ok := good && field != ""
+					report(cv, field, ok)
+					if ok {
+						clamped[call] = field
+					}
+				}
 			}
 		}
 	}
 	c.Floor("R5.validity", nConv, 2, "uint64->int64 conversions of validity bounds")
 	isUnix := func(v ssa.Value) bool {
-		cv, ok := v.(*ssa.Call)
+		cv, ok := throughCell(strip(v)).(*ssa.Call)
 		return ok && calleeName(cv) == "(time.Time).Unix"
-	}
-	isBound := func(v ssa.Value, field string) bool {
-		cv, ok := v.(*ssa.Convert)
-		return ok && clamped[field] == ssa.Value(cv)
 	}
 	sideOK := func(v ssa.Value, what string) bool {
 		if what == ".Unix>" {
 			return isUnix(v)
 		}
-		return isBound(v, what)
+		fld, ok := clamped[throughCell(strip(v))]
+		return ok && fld == what
 	}
-	cmpLit := func(b *ssa.BasicBlock, left, right string, pol bool) bool {
-		return f.Any(b, func(l Lit) bool {
-			bin, ok := l.V.(*ssa.BinOp)
-			if !ok || l.Pol != pol || (bin.Op != token.GTR && bin.Op != token.GEQ) {
-				return false
+	// every ordered comparison is lo <= hi or its negation
+	leq := func(v ssa.Value) (lo, hi ssa.Value, pos, ok bool) {
+		bin, isBin := v.(*ssa.BinOp)
+		if !isBin {
+			return nil, nil, false, false
+		}
+		switch bin.Op {
+		case token.LEQ:
+			return bin.X, bin.Y, true, true
+		case token.GTR:
+			return bin.X, bin.Y, false, true
+		case token.GEQ:
+			return bin.Y, bin.X, true, true
+		case token.LSS:
+			return bin.Y, bin.X, false, true
+		}
+		return nil, nil, false, false
+	}
+	// window: the literal says <left> <= <right> is `truth`
+	window := func(l Lit, left, right string, truth bool) bool {
+		lo, hi, pos, ok := leq(l.V)
+		return ok && sideOK(lo, left) && sideOK(hi, right) && (l.Pol == pos) == truth
+	}
+	has := func(fs map[Lit]bool, left, right string, truth bool) bool {
+		for l := range fs {
+			if window(l, left, right, truth) {
+				return true
 			}
-			return sideOK(bin.X, left) && sideOK(bin.Y, right)
-		})
+		}
+		return false
 	}
 	nTrue, nFalse := 0, 0
+	trueCase := func(r *ssa.Return, fs map[Lit]bool) {
+		nTrue++
+		okA := has(fs, "ValidAfter", ".Unix>", true)
+		okB := has(fs, ".Unix>", "ValidBefore", true)
+		isNil, known := f.knownNilIn(fs, fn.Params[0])
+		c.Check(okA && okB && known && !isNil, "R5.validity", "ValidateSSHCertTime|valid only inside the window", w.Pos(r.Pos()), "must-facts: cert != nil, after <= now, now <= before", "true can be returned without both window comparisons having held (or for a nil certificate)")
+	}
+	falseCase := func(r *ssa.Return, fs map[Lit]bool, viaBlock *ssa.BasicBlock) {
+		nFalse++
+		isNil, known := f.knownNilIn(fs, fn.Params[0])
+		ok := (known && isNil) || has(fs, "ValidAfter", ".Unix>", false) || has(fs, ".Unix>", "ValidBefore", false)
+		if !ok && viaBlock != nil && len(viaBlock.Preds) > 0 {
+			// a disjunction: every edge into the block carries one of the failing comparisons
+			ok = true
+			for _, p := range viaBlock.Preds {
+				ef := w.factsOnEdge(p, viaBlock)
+				if !has(ef, "ValidAfter", ".Unix>", false) && !has(ef, ".Unix>", "ValidBefore", false) {
+					ok = false
+				}
+			}
+		}
+		c.Check(ok, "R5.validity", "ValidateSSHCertTime|invalid only when nil or outside the window", w.Pos(r.Pos()), "nil, premature or expired", "false is returned on a path that is neither nil, premature nor expired (comparison direction?)")
+	}
+	with := func(fs map[Lit]bool, l Lit) map[Lit]bool {
+		out := copyFacts(fs)
+		out[l] = true
+		return out
+	}
 	for _, r := range liveReturns(fn) {
 		for _, lf := range w.Leaves(r.Results[0], r) {
-			v, ok := boolConst(lf.Val)
-			if !ok {
-				c.Und("R5.validity", "ValidateSSHCertTime|constant results", w.Pos(r.Pos()), "result is not a boolean constant: "+w.Short(lf.Val))
+			fs := copyFacts(f.At(r.Block()))
+			for l := range lf.Facts {
+				fs[l] = true
+			}
+			if v, ok := boolConst(lf.Val); ok {
+				if v {
+					trueCase(r, fs)
+				} else {
+					falseCase(r, fs, r.Block())
+				}
 				continue
 			}
-			b := r.Block()
-			if v {
-				nTrue++
-				okA := cmpLit(b, "ValidAfter", ".Unix>", false)
-				okB := cmpLit(b, ".Unix>", "ValidBefore", false)
-				isNil, known := f.KnownNil(b, fn.Params[0])
-				c.Check(okA && okB && known && !isNil, "R5.validity", "ValidateSSHCertTime|valid only inside the window", w.Pos(r.Pos()), "must-facts: cert != nil, not (after > now), not (now > before)", "true can be returned without both window comparisons having failed (or for a nil certificate)")
-			} else {
-				nFalse++
-				isNil, known := f.KnownNil(b, fn.Params[0])
-				ok := (known && isNil) || cmpLit(b, "ValidAfter", ".Unix>", true) || cmpLit(b, ".Unix>", "ValidBefore", true)
-				if !ok && len(b.Preds) > 0 {
-					// a disjunction: every edge into the block carries one of the failing comparisons
-					ok = true
-					for _, p := range b.Preds {
-						ef := w.factsOnEdge(p, b)
-						edgeOK := false
-						for l := range ef {
-							bin, isBin := l.V.(*ssa.BinOp)
-							if !isBin || !l.Pol || (bin.Op != token.GTR && bin.Op != token.GEQ) {
-								continue
-							}
-							if (sideOK(bin.X, "ValidAfter") && sideOK(bin.Y, ".Unix>")) || (sideOK(bin.X, ".Unix>") && sideOK(bin.Y, "ValidBefore")) {
-								edgeOK = true
-							}
-						}
-						if !edgeOK {
-							ok = false
-						}
-					}
-				}
-				c.Check(ok, "R5.validity", "ValidateSSHCertTime|invalid only when nil or outside the window", w.Pos(r.Pos()), "nil, premature or expired", "false is returned on a path that is neither nil, premature nor expired (comparison direction?)")
+			// a comparison returned as such: true where it holds, false where it does not
+			val, neg := strip(lf.Val), false
+			if u, isNot := val.(*ssa.UnOp); isNot && u.Op == token.NOT {
+				val, neg = strip(u.X), true
 			}
+			if _, _, _, isCmp := leq(val); isCmp {
+				trueCase(r, with(fs, Lit{V: val, Pol: !neg}))
+				falseCase(r, with(fs, Lit{V: val, Pol: neg}), nil)
+				continue
+			}
+			c.Und("R5.validity", "ValidateSSHCertTime|constant results", w.Pos(r.Pos()), "result is neither a boolean constant nor a comparison: "+w.Short(lf.Val))
 		}
 	}
 	c.Floor("R5.validity", nTrue, 1, "return true")
